@@ -106,3 +106,61 @@ Example C14_fixed_on_witnesses :
   read (run fixed [Begin; Write 0 0 184; Override 0 0 0 5; Finish; Begin; Write 0 0 123; StopAll] (init v0 g0 gs)) 0%nat 0%nat = 123 /\
   read (run fixed [Begin; Start 1 0; Override 1 0 0 10; Start 2 0; Override 2 0 0 20; Stop 2; Stop 1] (init v0 g0 gs)) 0%nat 0%nat = v0 0%nat 0%nat.
 Proof. exact fixed_on_witnesses. Qed.
+
+From Coq Require Import QArith.
+From Scenic Require Import C14.History C14.HistoryProofs.
+
+(* ======== round 3: what one simulation / compilation leaves for the next one (coq/C14/History.v) ========
+   A simulation's result is a function of (program, scene, options) only: for EVERY history h of earlier
+   simulations made from the same compiled scenario (any scenes, timesteps, maxSteps, guard outcomes, sub-scenarios,
+   top-level overrides) the next run gives the result it gives right after compilation.  Stated for the REPAIRED
+   code [fixedH]; the current code (currentH: _isRunning left True by a failed delayed guard check, _subScenarios
+   never reset) is refuted below, as are the seeded variants. *)
+Theorem C14_run_independent_of_history : forall P h x,
+  History.run_after fixedH P h x = History.run_from_initial fixedH P x.
+Proof. exact run_independent_of_history. Qed.
+Print Assumptions C14_run_independent_of_history.
+(* the invariant behind it: whatever a run was, the state after its end equals the initial state on every
+   field the next run reads before writing (_timeLimit, _delayingPreconditionCheck, _overrides, _subScenarios, _isRunning) *)
+Theorem C14_finish_restores_read_fields : forall P s x,
+  History.read_eq s (History.init P) -> History.read_eq (fst (History.run_one fixedH P s x)) (History.init P).
+Proof. exact finish_restores_read_fields. Qed.
+Print Assumptions C14_finish_restores_read_fields.
+Theorem C14_result_reads_only : forall P s1 s2 x, History.read_eq s1 s2 ->
+  snd (History.run_one fixedH P s1 x) = snd (History.run_one fixedH P s2 x).
+Proof. exact result_reads_only. Qed.
+Example C14_history_nonvacuous :
+  r_time (run_after fixedH P2s [(sc0, mk 1 100 true [])] (sc0, mk (1#4) 100 true [])) = 8%nat /\
+  r_time (run_after fixedH P2s [(sc0, mk (1#2) 100 true [])] (sc0, mk (1#2) 100 true [])) = 4%nat /\
+  r_out (run_after fixedH Pnone [(sc0, mk 1 5 true [])] (sc0, mk 1 5 false [])) = OGuard /\
+  r_out (run_after fixedH Pnone [(sc0, mk 1 5 false [])] (sc0, mk 1 5 true [])) = ORan /\
+  r_stale_subs (run_after fixedH Pnone [(sc0, mk 1 5 true [1%nat])] (sc0, mk 1 5 true [])) = [].
+Proof. exact fixed_on_history_witnesses. Qed.
+(* a compilation's view of the .scenic modules it imports is a function of the compilation only *)
+Theorem C14_compile_independent_of_history : forall h c, compile_after fixedH h c = compile_fresh fixedH c.
+Proof. exact compile_independent_of_history. Qed.
+Print Assumptions C14_compile_independent_of_history.
+Example C14_compile_nonvacuous :
+  compile_after fixedH [{| c_imports := [1%nat]; c_ok := false; c_param := 7%Z |}] {| c_imports := [1%nat]; c_ok := true; c_param := 3%Z |} = [(1%nat, 3%Z, true)].
+Proof. exact compile_nonvacuous. Qed.
+(* ---- the CURRENT code is history dependent (findings C14-delayed-precondition-running and F27, replayed on the real
+   code by the harness: kind `history`, AssertionError after a top-level guard violation; /tmp/r3c12/t2.py) *)
+Theorem C14_history_current_refuted : exists P h x, run_after currentH P h x <> run_from_initial currentH P x.
+Proof. exact current_refuted. Qed.
+Theorem C14_history_current_subs_refuted : exists P h x, run_after currentH P h x <> run_from_initial currentH P x.
+Proof. exact current_refuted_subs. Qed.
+(* ---- wrong variants, each with the history the seeded patch's demo / the harness replays *)
+Theorem C14_limit_cached_refuted : exists P h x, run_after (set_V 1) P h x <> run_from_initial (set_V 1) P x.       (* seeded C14-3 *)
+Proof. exact limit_cached_refuted. Qed.
+Theorem C14_limit_in_place_refuted : exists P h x, run_after (set_V 0) P h x <> run_from_initial (set_V 0) P x.     (* seeded C12-3 *)
+Proof. exact limit_in_place_refuted. Qed.
+Theorem C14_delay_cleared_refuted : exists P h x, run_after (set_V 2) P h x <> run_from_initial (set_V 2) P x.      (* seeded C13-4 *)
+Proof. exact delay_cleared_refuted. Qed.
+Theorem C14_running_left_refuted : exists P h x, run_after (set_V 3) P h x <> run_from_initial (set_V 3) P x.       (* defect (a) *)
+Proof. exact running_left_refuted. Qed.
+Theorem C14_subs_kept_refuted : exists P h x, run_after (set_V 4) P h x <> run_from_initial (set_V 4) P x.          (* defect (b), F27 *)
+Proof. exact subs_kept_refuted. Qed.
+Theorem C14_overrides_kept_refuted : exists P h x, run_after (set_V 5) P h x <> run_from_initial (set_V 5) P x.     (* stale top-level table *)
+Proof. exact overrides_kept_refuted. Qed.
+Theorem C14_purge_on_success_refuted : exists h c, compile_after (set_V 6) h c <> compile_fresh (set_V 6) c.        (* seeded C14-4 *)
+Proof. exact purge_on_success_refuted. Qed.
